@@ -51,10 +51,10 @@ REQUIRED_COUNTERS = {
               "ml_underdetermined_compared": 40, "direct_mean_compared": 120, "direct_cov_compared": 120,
               "neighbourhood_points_probed": 40000, "nl_estimates_probed": 130, "gradient_norm_checked": 200,
               "solver_result_passthrough_checked": 300},
-    "thorough": {"lg_map_closed_form_compared": 1300, "lg_map_optim_compared": 700, "ml_wls_compared": 850,
-                 "ml_underdetermined_compared": 340, "direct_mean_compared": 1200, "direct_cov_compared": 1200,
-                 "neighbourhood_points_probed": 450000, "nl_estimates_probed": 1100, "gradient_norm_checked": 1900,
-                 "solver_result_passthrough_checked": 2700},
+    "thorough": {"lg_map_closed_form_compared": 1050, "lg_map_optim_compared": 560, "ml_wls_compared": 680,
+                 "ml_underdetermined_compared": 250, "direct_mean_compared": 960, "direct_cov_compared": 960,
+                 "neighbourhood_points_probed": 360000, "nl_estimates_probed": 850, "gradient_norm_checked": 1500,
+                 "solver_result_passthrough_checked": 2150},
 }
 BUDGET_S = {"quick": 240.0, "thorough": 1500.0}
 
@@ -163,7 +163,7 @@ def _lg_case(rng, tier, i, specs_p, specs_e, models):
 
 def cases(tier, seed):
     rng = core.rng_for(seed, PROPERTY, tier)
-    n_lg, n_nl = (800, 300) if tier == "quick" else (7500, 2500)
+    n_lg, n_nl = (800, 300) if tier == "quick" else (6000, 2000)
     specs = [(f, s) for f in R.FORMS for s in R.SHAPES]
     def blocks(items, total):        # every block of len(items) cases covers all values, in a fresh random order
         seq = []
